@@ -201,8 +201,8 @@ Section Parts.
   Proof. induction payload as [|f t IH]; simpl; [reflexivity|]. rewrite N.eqb_refl, IH. reflexivity. Qed.
 
   (* identity known and connection fine: identity frame, (auto) delimiter, then the parts as given *)
-  Lemma parts_known m id u s payload :
-    id <> [] -> fget id m = Some (u, s) -> conn u = COk -> payload <> [] -> more_ok payload ->
+  Lemma parts_known m id u s o payload :
+    id <> [] -> fget id m = Some (u, s, o) -> conn u = COk -> payload <> [] -> more_ok payload ->
     parts (m, None) ((true, id) :: payload) =
     ((m, None), PSent u ((true, id) :: if manual then [] else [delim true]) :: map (fun f => PSent u [f]) payload).
   Proof.
@@ -210,12 +210,12 @@ Section Parts.
     cbn [fmore fst snd negb]. destruct id as [|x r]; [congruence|]. rewrite F, C.
     rewrite parts_continue by assumption. reflexivity.
   Qed.
-  Lemma parts_known_wire m id u s payload :
-    id <> [] -> fget id m = Some (u, s) -> conn u = COk -> payload <> [] -> more_ok payload ->
+  Lemma parts_known_wire m id u s o payload :
+    id <> [] -> fget id m = Some (u, s, o) -> conn u = COk -> payload <> [] -> more_ok payload ->
     wire_to u (snd (parts (m, None) ((true, id) :: payload))) =
     (true, id) :: (if manual then [] else [delim true]) ++ payload.
   Proof.
-    intros I F C H M. rewrite (parts_known m id u s) by assumption. cbn [snd wire_to]. rewrite N.eqb_refl, wire_to_map.
+    intros I F C H M. rewrite (parts_known m id u s o) by assumption. cbn [snd wire_to]. rewrite N.eqb_refl, wire_to_map.
     reflexivity.
   Qed.
   (* unknown identity *)
@@ -227,12 +227,12 @@ Section Parts.
 End Parts.
 
 (* ROUTER -> DEALER, part by part *)
-Lemma rt_router_parts_dealer mandatory conn hint m id u s payload :
-  id <> [] -> fget id m = Some (u, s) -> conn u = COk -> payload <> [] -> more_ok payload ->
+Lemma rt_router_parts_dealer mandatory conn hint m id u s o payload :
+  id <> [] -> fget id m = Some (u, s, o) -> conn u = COk -> payload <> [] -> more_ok payload ->
   dealer_process_incoming false
     (wire_to u (snd (router_send_parts mandatory false conn hint (m, None) ((true, id) :: payload)))) = payload.
 Proof.
-  intros I F C H M. rewrite (parts_known_wire mandatory false conn hint m id u s) by assumption.
+  intros I F C H M. rewrite (parts_known_wire mandatory false conn hint m id u s o) by assumption.
   destruct id as [|x r]; [congruence|]. destruct payload; [congruence|]. reflexivity.
 Qed.
 
@@ -327,13 +327,13 @@ Proof.
   assert (fempty (with_more idm) = false) as ->. { unfold fempty, with_more. simpl. destruct (snd idm); congruence. }
   reflexivity.
 Qed.
-Lemma parts_to_req mandatory conn hint m id u s payload :
-  id <> [] -> fget id m = Some (u, s) -> conn u = COk -> payload <> [] -> more_ok payload ->
+Lemma parts_to_req mandatory conn hint m id u s o payload :
+  id <> [] -> fget id m = Some (u, s, o) -> conn u = COk -> payload <> [] -> more_ok payload ->
   req_recv_multipart
     (wire_to u (snd (router_send_parts mandatory false conn hint (m, None) ((true, id) :: payload)))) =
   (true, id) :: delim true :: payload.
 Proof.
-  intros I F C H M. rewrite (parts_known_wire mandatory false conn hint m id u s) by assumption.
+  intros I F C H M. rewrite (parts_known_wire mandatory false conn hint m id u s o) by assumption.
   destruct id as [|x r]; [congruence|]. reflexivity.
 Qed.
 
@@ -344,8 +344,8 @@ Lemma mandatory_unknown mandatory manual conn hint m idm payload :
   (m, if mandatory then SUnreachable else SDropped).
 Proof. intros I F. unfold router_send_multipart. destruct (snd idm) eqn:E; [congruence|]. rewrite F. reflexivity. Qed.
 
-Lemma send_known mandatory manual conn hint m idm payload u s :
-  snd idm <> [] -> fget (snd idm) m = Some (u, s) -> conn u = COk ->
+Lemma send_known mandatory manual conn hint m idm payload u s o :
+  snd idm <> [] -> fget (snd idm) m = Some (u, s, o) -> conn u = COk ->
   router_send_multipart mandatory manual conn hint m (idm :: payload) =
   (m, SSent u (router_wire s manual idm payload)).
 Proof. intros I F C. unfold router_send_multipart. destruct (snd idm) eqn:E; [congruence|]. rewrite F, C. reflexivity. Qed.
@@ -358,26 +358,26 @@ Lemma send_multipart_decision mandatory manual conn hint m frames :
   | SUnreachable =>
       mandatory = true /\ exists idm payload, frames = idm :: payload /\ snd idm <> [] /\
         ((fget (snd idm) m = None /\ m' = m) \/
-         (exists u s, fget (snd idm) m = Some (u, s) /\
+         (exists u s o, fget (snd idm) m = Some (u, s, o) /\
             ((conn u = CGone /\ m' = remove_peer_by_identity hint (snd idm) m) \/ (conn u = CClosed /\ m' = m))))
   | SDropped =>
       mandatory = false /\ exists idm payload, frames = idm :: payload /\ snd idm <> [] /\
         ((fget (snd idm) m = None /\ m' = m) \/
-         (exists u s, fget (snd idm) m = Some (u, s) /\
+         (exists u s o, fget (snd idm) m = Some (u, s, o) /\
             ((conn u = CGone /\ m' = remove_peer_by_identity hint (snd idm) m) \/ (conn u = CClosed /\ m' = m))))
   | SSent u w =>
-      m' = m /\ exists idm payload s, frames = idm :: payload /\ snd idm <> [] /\
-        fget (snd idm) m = Some (u, s) /\ conn u = COk /\ w = router_wire s manual idm payload
+      m' = m /\ exists idm payload s o, frames = idm :: payload /\ snd idm <> [] /\
+        fget (snd idm) m = Some (u, s, o) /\ conn u = COk /\ w = router_wire s manual idm payload
   end.
 Proof.
   unfold router_send_multipart. destruct frames as [|idm payload]; [simpl; auto|].
   destruct (snd idm) as [|x r] eqn:E; [simpl; split; [reflexivity|right; eauto]|].
   rewrite <- E. assert (snd idm <> []) as NI by (rewrite E; discriminate).
-  destruct (fget (snd idm) m) as [[u s]|] eqn:F.
+  destruct (fget (snd idm) m) as [[[u s] o]|] eqn:F.
   - destruct (conn u) eqn:C.
-    + destruct mandatory; (split; [reflexivity|]); exists idm, payload; repeat split; auto; right; exists u, s; auto.
-    + destruct mandatory; (split; [reflexivity|]); exists idm, payload; repeat split; auto; right; exists u, s; auto.
-    + split; [reflexivity|]. exists idm, payload, s. auto.
+    + destruct mandatory; (split; [reflexivity|]); exists idm, payload; repeat split; auto; right; exists u, s, o; auto.
+    + destruct mandatory; (split; [reflexivity|]); exists idm, payload; repeat split; auto; right; exists u, s, o; auto.
+    + split; [reflexivity|]. exists idm, payload, s, o. auto.
   - destruct mandatory; (split; [reflexivity|]); exists idm, payload; repeat split; auto.
 Qed.
 
@@ -390,23 +390,58 @@ Lemma send_reaches_true_peer uri_of placeholder h p i st mandatory manual conn h
   (run uri_of placeholder h, SSent (uri_of p) (router_wire st manual (b, i) payload)).
 Proof.
   intros D S I C. destruct (lookup_true_peer_holds uri_of placeholder h D) as (TP & _).
-  destruct (TP _ _ _ S) as [_ F]. apply send_known; assumption.
+  destruct (TP _ _ _ S) as [_ F]. apply (send_known mandatory manual conn hint _ (b, i) payload _ st p); assumption.
+Qed.
+(* maps + send, EVERY history (colliding identities included): if identity i has a forward entry at
+   all, its recorded owner o is a live pipe whose latest attach/announcement carried i, and a message
+   addressed to i is handed to o's connection in o's strategy's wire form - never to anybody else *)
+Lemma send_reaches_latest_claimant uri_of placeholder h i u st o mandatory manual conn hint b payload :
+  fget i (run uri_of placeholder h) = Some (u, st, o) -> i <> [] -> conn (uri_of o) = COk ->
+  sget o (spec_run placeholder h) = Some (i, st) /\
+  router_send_multipart mandatory manual conn hint (run uri_of placeholder h) ((b, i) :: payload) =
+  (run uri_of placeholder h, SSent (uri_of o) (router_wire st manual (b, i) payload)).
+Proof.
+  intros F I C. destruct (latest_claimant_reachable uri_of placeholder h i u st o F) as (U & _ & S).
+  split; [exact S|]. subst u. apply (send_known mandatory manual conn hint _ (b, i) payload _ st o); assumption.
 Qed.
 
 (* ------------------------------------------------------------------ concrete witnesses *)
-(* two peers announce the same identity, the older one disconnects: the live one is unreachable *)
+(* two peers announce the same identity, the older one disconnects: the forward entry belongs to the
+   newer pipe and stays; the live peer is reached *)
 Definition wit_collision : list ev :=
   [EAttach 1 None; EAnnounce 1 (Some [65]) (Some TDealer);
    EAttach 2 None; EAnnounce 2 (Some [65]) (Some TDealer); EDetach 1].
-Lemma true_peer_collision_refuted :
+Example collision_older_detach_example :
+  let h := wit_collision in
+  let m := run (fun q => q + 100) placeholder_id h in
+  sget 2 (spec_run placeholder_id h) = Some ([65], SDealer) /\ sget 1 (spec_run placeholder_id h) = None /\
+  rget 2 m = Some [65] /\ rget 1 m = None /\
+  fget [65] m = Some (102, SDealer, 2) /\
+  forall mandatory manual conn hint b payload, conn 102 = COk ->
+    router_send_multipart mandatory manual conn hint m ((b, [65]) :: payload) =
+    (m, SSent 102 (router_wire SDealer manual (b, [65]) payload)).
+Proof.
+  intros h m. assert (fget [65] m = Some (102, SDealer, 2)) as F by (vm_compute; reflexivity).
+  split; [vm_compute; reflexivity|]. split; [vm_compute; reflexivity|].
+  split; [vm_compute; reflexivity|]. split; [vm_compute; reflexivity|]. split; [exact F|].
+  intros mandatory manual conn hint b payload C.
+  apply (send_known mandatory manual conn hint m (b, [65]) payload 102 SDealer 2); [discriminate|exact F|exact C].
+Qed.
+(* what remains: the NEWER pipe (the owner) disconnects while the older one is still attached.  The
+   entry goes with its owner; the older live peer keeps its reverse entry but cannot be addressed
+   (HostUnreachable / silent drop) until it announces itself again.  Nothing is misdelivered. *)
+Definition wit_owner_leaves : list ev :=
+  [EAttach 1 None; EAnnounce 1 (Some [65]) (Some TDealer);
+   EAttach 2 None; EAnnounce 2 (Some [65]) (Some TDealer); EDetach 2].
+Lemma older_claimant_unreachable_after_owner_leaves :
   exists h p i st, sget p (spec_run placeholder_id h) = Some (i, st) /\
-                   rget p (run (fun q => q) placeholder_id h) = Some i /\
-                   fget i (run (fun q => q) placeholder_id h) = None /\
+                   rget p (run (fun q => q + 100) placeholder_id h) = Some i /\
+                   fget i (run (fun q => q + 100) placeholder_id h) = None /\
                    forall mandatory manual conn hint b payload,
-                     snd (router_send_multipart mandatory manual conn hint (run (fun q => q) placeholder_id h) ((b, i) :: payload))
+                     snd (router_send_multipart mandatory manual conn hint (run (fun q => q + 100) placeholder_id h) ((b, i) :: payload))
                      = if mandatory then SUnreachable else SDropped.
 Proof.
-  exists wit_collision, 2, [65], SDealer. split; [reflexivity|]. split; [reflexivity|]. split; [reflexivity|].
+  exists wit_owner_leaves, 1, [65], SDealer. split; [reflexivity|]. split; [reflexivity|]. split; [reflexivity|].
   intros. rewrite mandatory_unknown; [reflexivity|discriminate|reflexivity].
 Qed.
 
@@ -414,15 +449,15 @@ Definition wit_map : rmap := add_peer [66] 1 1 rm_empty.
 (* part-wise send to an unknown identity without ROUTER_MANDATORY: the next part is taken for a new
    identity frame; here the rest of the message is delivered to peer "B" although addressed to "Z" *)
 Lemma parts_unknown_misroute_refuted :
-  exists m conn unknown idB uB x,
-    fget unknown m = None /\ fget idB m = Some (uB, SDefault) /\ unknown <> idB /\
+  exists m conn unknown idB uB oB x,
+    fget unknown m = None /\ fget idB m = Some (uB, SDefault, oB) /\ unknown <> idB /\
     snd (router_send_parts false false conn 0 (m, None) [(true, unknown); (true, idB); (false, x)]) =
       [PDropped; PSent uB [(true, idB); delim true]; PSent uB [(false, x)]] /\
     dealer_process_incoming false
       (wire_to uB (snd (router_send_parts false false conn 0 (m, None) [(true, unknown); (true, idB); (false, x)]))) =
       [(false, x)].
 Proof.
-  exists wit_map, (fun _ => COk), [90], [66], 1, [120]. repeat split; try reflexivity. discriminate.
+  exists wit_map, (fun _ => COk), [90], [66], 1, 1, [120]. repeat split; try reflexivity. discriminate.
 Qed.
 (* ... and with a single payload part the drop is not silent: the payload part is rejected *)
 Lemma parts_unknown_not_silent_refuted :
@@ -432,11 +467,11 @@ Lemma parts_unknown_not_silent_refuted :
 Proof. exists wit_map, (fun _ => COk), [90], [120]. split; reflexivity. Qed.
 (* a REQ peer addressed part by part (or through the Default strategy) sees identity and delimiter *)
 Lemma parts_to_req_refuted :
-  exists m conn id u payload,
-    fget id m = Some (u, SReq) /\
+  exists m conn id u o payload,
+    fget id m = Some (u, SReq, o) /\
     req_recv_multipart (wire_to u (snd (router_send_parts false false conn 0 (m, None) ((true, id) :: payload)))) <> payload.
 Proof.
-  exists (update_peer_identity 1 [65] 1 (Some TReq) rm_empty), (fun _ => COk), [65], 1, [(false, [120])].
+  exists (update_peer_identity 1 [65] 1 (Some TReq) rm_empty), (fun _ => COk), [65], 1, 1, [(false, [120])].
   split; [reflexivity|]. vm_compute. discriminate.
 Qed.
 (* mixed mode: ROUTER manual + DEALER strategy -> DEALER auto loses a non-empty first frame *)
